@@ -45,8 +45,11 @@ func (n *NotifSpec) core() *corebgp.Notification {
 
 // PluginSpec scripts the behaviour of the recording plugin of one peer.
 type PluginSpec struct {
-	Caps           []wire.Cap       `json:"caps,omitempty"`
-	NoNonce        bool             `json:"no_nonce,omitempty"`
+	Caps    []wire.Cap `json:"caps,omitempty"`
+	NoNonce bool       `json:"no_nonce,omitempty"`
+	// SharedCaps: the plugin builds its capability list once, in a slice with spare
+	// capacity, and returns that very slice from every call (no nonce is appended)
+	SharedCaps     bool             `json:"shared_caps,omitempty"`
 	OpenNotif      *NotifSpec       `json:"open_notif,omitempty"`
 	NilHandler     bool             `json:"nil_handler,omitempty"`
 	HandlerNotifOn int              `json:"handler_notif_on,omitempty"` // 1-based handler call of a session; 0 = never
@@ -156,12 +159,14 @@ type peerState struct {
 	sessIDs  []int // world-wide session number of each
 	writers  []corebgp.UpdateMessageWriter
 	retained []retained
+	shared   []corebgp.Capability // SharedCaps: the one slice handed out by GetCapabilities
 }
 
 // World is one server with its network, inside a bubble.
 type World struct {
 	Net      *memnet.Net
 	Lis      *memnet.Listener
+	extraLis []*memnet.Listener
 	Srv      *corebgp.Server
 	Rec      *Recorder
 	RouterID netip.Addr
@@ -321,11 +326,23 @@ func (w *World) AddPeer(p PeerSpec) error {
 }
 
 // Serve starts Server.Serve on the world's listener in its own goroutine.
+// ExtraListeners makes Serve listen on n more (idle) sockets besides the one
+// the scripted remotes connect to. Call it before Serve.
+func (w *World) ExtraListeners(n int) {
+	for i := 0; i < n; i++ {
+		w.extraLis = append(w.extraLis, w.Net.NewListener(netip.MustParseAddrPort(fmt.Sprintf("0.0.0.0:%d", 1790+len(w.extraLis)))))
+	}
+}
+
 func (w *World) Serve() {
 	w.served = true
 	w.serveDone = make(chan struct{})
+	lis := []net.Listener{w.Lis}
+	for _, l := range w.extraLis {
+		lis = append(lis, l)
+	}
 	go func() {
-		w.serveErr = w.Srv.Serve([]net.Listener{w.Lis})
+		w.serveErr = w.Srv.Serve(lis)
 		close(w.serveDone)
 	}()
 }
@@ -432,6 +449,9 @@ func (w *World) Finish() (closeReturned bool) {
 		c.RemoteReset()
 	}
 	w.Lis.Close()
+	for _, l := range w.extraLis {
+		l.Close()
+	}
 	w.Settle()
 	curWorld.CompareAndSwap(w, nil)
 	return closeReturned
@@ -575,6 +595,19 @@ func (p *plugin) GetCapabilities(pc corebgp.PeerConfig) []corebgp.Capability {
 	p.w.Rec.add(Ev{K: "caps+", Peer: pc.RemoteAddress.String(), N: n})
 	p.sleep("caps")
 	var out []corebgp.Capability
+	if p.ps.spec.Plugin.SharedCaps {
+		p.ps.mu.Lock()
+		if p.ps.shared == nil {
+			p.ps.shared = make([]corebgp.Capability, 0, len(p.ps.spec.Plugin.Caps)+3)
+			for _, c := range p.ps.spec.Plugin.Caps {
+				p.ps.shared = append(p.ps.shared, corebgp.Capability{Code: c.Code, Value: append([]byte(nil), c.Value...)})
+			}
+		}
+		out = p.ps.shared
+		p.ps.mu.Unlock()
+		p.w.Rec.add(Ev{K: "caps-", Peer: pc.RemoteAddress.String(), N: n})
+		return out
+	}
 	for _, c := range p.ps.spec.Plugin.Caps {
 		out = append(out, corebgp.Capability{Code: c.Code, Value: append([]byte(nil), c.Value...)})
 	}
